@@ -2,6 +2,7 @@ import Ecal.Lemmas.ParserMain
 /-! Partial nodes, child signatures and the facts about `shapeOk` used by the well-formedness induction. -/
 namespace Ecal.Parse
 open Ecal.Lex
+variable {ts : List Tok}
 
 /-- child signatures of a node -/
 def sigs (n : Node) : List Sig := n.children.map sigOf
